@@ -49,3 +49,40 @@ Theorem C09_v2_disabled_chord_never_activated : forall c layer c' a,
   exists ch since coord rf, In ch (cv_chords c) /\ enabled_on layer ch = true /\ a = get_active_chord ch since coord rf.
 Proof. exact disabled_chord_never_activated. Qed.
 Print Assumptions C09_v2_disabled_chord_never_activated.
+
+(* chords v2 release rule (drain_releases / the ignore-window branch of drain_inputs) *)
+From KV Require Import Proofs.C09V2Release.
+Theorem C09_v2_nonparticipant_release_ignored : forall j a, mem_n j (ac_keys a) = false -> release_in_ach j a = a.
+Proof. exact nonparticipant_release_ignored. Qed.
+Print Assumptions C09_v2_nonparticipant_release_ignored.
+
+Theorem C09_v2_bystander_releases_change_no_active_chord : forall q npress achs dq q' achs' dq',
+  Forall (fun qd => q_press qd = false -> forallb (fun a => negb (mem_n (snd (q_coord qd)) (ac_keys a))) achs = true) q ->
+  drain_releases q npress achs dq = Ok (q', achs', dq') -> achs' = achs.
+Proof. exact drain_releases_bystanders. Qed.
+Print Assumptions C09_v2_bystander_releases_change_no_active_chord.
+
+Theorem C09_v2_first_release_by_participant : forall j a,
+  ac_remaining a = [] -> mem_n j (ac_keys a) = true -> is_released (ac_status (release_in_ach j a)) = true.
+Proof. exact first_release_by_participant. Qed.
+Print Assumptions C09_v2_first_release_by_participant.
+
+Theorem C09_v2_all_released_waits : forall j k a,
+  In k (ac_remaining a) -> k <> j -> ac_status (release_in_ach j a) = ac_status a.
+Proof. exact all_released_waits. Qed.
+Print Assumptions C09_v2_all_released_waits.
+
+Theorem C09_v2_all_released_by_last : forall j a,
+  mem_n j (ac_keys a) = true -> (forall k, In k (ac_remaining a) -> k = j) ->
+  is_released (ac_status (release_in_ach j a)) = true.
+Proof. exact all_released_by_last. Qed.
+Print Assumptions C09_v2_all_released_by_last.
+
+(* releases reach the active chords also while chords are being ignored (chords-v2-min-idle window; repaired by 297ba3c) *)
+Theorem C09_v2_ignore_window_release_reaches_chord : forall c dq layer a qd c' dq',
+  0 <? cv_ignore c = true -> In a (cv_active c) -> In qd (cv_queue c) ->
+  q_press qd = false -> fst (q_coord qd) = 0 -> mem_n (snd (q_coord qd)) (ac_keys a) = true -> ac_remaining a = [] ->
+  drain_inputs c dq layer = Ok (c', dq') ->
+  exists a', In a' (cv_active c') /\ ac_coord a' = ac_coord a /\ is_released (ac_status a') = true.
+Proof. exact ignore_window_release_reaches_chord. Qed.
+Print Assumptions C09_v2_ignore_window_release_reaches_chord.
